@@ -147,3 +147,12 @@ add("C07", "E3", "fault_enumeration",
     "reachable or protected (ground truth from the independent reader on the undamaged table) may be deleted.",
     "Parseable damage is out of scope (counted); faults on deletes of true orphans may be swallowed.",
     "DESIGN.md 3 C07")
+add("C04", "E3", "fault_enumeration",
+    "exhaustive fault enumeration: every storage-level call of a commit x every fault kind (+ all ordered fault pairs in the commit region)",
+    "The storage-level calls of each commit (4 operations x 3 call styles x local / CAS-S3 / non-CAS S3) are numbered in a "
+    "fault-free run; for every call and every applicable fault kind (OSError or ClientError before the effect, once or on "
+    "every attempt; permanent error; error after the effect of a PUT/DELETE; KeyboardInterrupt/SystemExit before and after "
+    "the call) the operation is re-run from the same template with the fault planted there, and the outcome/state table of "
+    "the statement is checked, followed by a scan and an append through a fresh handle.",
+    "Asynchronous interrupts are placed at storage-call boundaries; close() is modelled as releasing the descriptor even when it reports an error.",
+    "DESIGN.md 3 C04")
